@@ -643,4 +643,48 @@ theorem run_const (hI : I.Sound R K) (p : Prog) (z : Bool) (h : check p = .const
 
 end
 
+
+/-! ### `checkFast` computes `check` -/
+
+section
+theorem Tag.force_eq {α : Sort _} (t : Tag) (k : Tag → α) : t.force k = k t := by
+  rcases t with ⟨_ | _⟩ | _ | _ | _ | _ <;> rfl
+
+theorem tagOfR_eq (tags : List Tag) (i : Nat) : tagOfR tags.length tags.reverse i = tagOf tags i := by
+  unfold tagOfR tagOf
+  by_cases h : i < tags.length
+  · simp only [h, if_true]
+    rw [List.getElem?_reverse (by omega)]
+    congr 2
+    omega
+  · simp only [h, if_false]
+    rw [List.getElem?_eq_none (by omega)]
+    rfl
+
+theorem stepTagR_eq (tags : List Tag) (e : Eqn) : stepTagR tags.length tags.reverse e = stepTag tags e := by
+  have h : tagOfR tags.length tags.reverse = tagOf tags := funext (tagOfR_eq tags)
+  unfold stepTagR stepTag
+  rw [h]
+
+theorem checkEqnsR_eq (es : List Eqn) (tags : List Tag) :
+    checkEqnsR es tags.length tags.reverse = ((checkEqns es tags).length, (checkEqns es tags).reverse) := by
+  induction es generalizing tags with
+  | nil => rfl
+  | cons e es ih =>
+    unfold checkEqnsR checkEqns
+    rw [Tag.force_eq, stepTagR_eq]
+    have := ih (tags ++ [stepTag tags e])
+    simpa using this
+
+theorem checkFast_eq_check (p : Prog) : checkFast p = check p := by
+  unfold checkFast check progTags
+  have := checkEqnsR_eq p.eqns (List.replicate p.nin .linC)
+  simp only [List.length_replicate, List.reverse_replicate] at this
+  rw [this]
+  have h : tagOfR (checkEqns p.eqns (List.replicate p.nin .linC)).length
+      (checkEqns p.eqns (List.replicate p.nin .linC)).reverse = tagOf (checkEqns p.eqns (List.replicate p.nin .linC)) :=
+    funext (tagOfR_eq _)
+  simp only [h]
+end
+
 end Scico.Jaxpr
